@@ -25,9 +25,9 @@ pub open spec fn is_round_half_away(r: real, x: real, n: nat) -> bool {
 impl Decimal {
     pub uninterp spec fn v(&self) -> real;
     #[verifier::external_body]
-    pub exec const ZERO: Decimal ensures Self::ZERO.v() == 0real { unimplemented!() }
+    pub exec const ZERO: Decimal ensures Self::ZERO.v() == 0real { Decimal { _p: 0 } }
     #[verifier::external_body]
-    pub exec const ONE: Decimal ensures Self::ONE.v() == 1real { unimplemented!() }
+    pub exec const ONE: Decimal ensures Self::ONE.v() == 1real { Decimal { _p: 1 } }
     #[verifier::external_body]
     pub fn min(self, o: Decimal) -> (r: Decimal)
         ensures r.v() == (if self.v() <= o.v() { self.v() } else { o.v() })
@@ -109,32 +109,32 @@ impl core::ops::Neg for Decimal { type Output = Decimal;
 
 impl AddAssignSpecImpl for Decimal {
     open spec fn obeys_add_assign_spec() -> bool { false }
-    open spec fn add_assign_req(self, rhs: Decimal) -> bool { true }
-    uninterp spec fn add_assign_spec(self, rhs: Decimal) -> Decimal;
+    open spec fn add_assign_req(&self, rhs: Decimal) -> bool { true }
+    uninterp spec fn add_assign_spec(&self, rhs: Decimal) -> &Decimal;
 }
 impl core::ops::AddAssign for Decimal {
     #[verifier::external_body]
     fn add_assign(&mut self, rhs: Decimal) ensures final(self).v() == old(self).v() + rhs.v() { unimplemented!() } }
 impl SubAssignSpecImpl for Decimal {
     open spec fn obeys_sub_assign_spec() -> bool { false }
-    open spec fn sub_assign_req(self, rhs: Decimal) -> bool { true }
-    uninterp spec fn sub_assign_spec(self, rhs: Decimal) -> Decimal;
+    open spec fn sub_assign_req(&self, rhs: Decimal) -> bool { true }
+    uninterp spec fn sub_assign_spec(&self, rhs: Decimal) -> &Decimal;
 }
 impl core::ops::SubAssign for Decimal {
     #[verifier::external_body]
     fn sub_assign(&mut self, rhs: Decimal) ensures final(self).v() == old(self).v() - rhs.v() { unimplemented!() } }
 impl MulAssignSpecImpl for Decimal {
     open spec fn obeys_mul_assign_spec() -> bool { false }
-    open spec fn mul_assign_req(self, rhs: Decimal) -> bool { true }
-    uninterp spec fn mul_assign_spec(self, rhs: Decimal) -> Decimal;
+    open spec fn mul_assign_req(&self, rhs: Decimal) -> bool { true }
+    uninterp spec fn mul_assign_spec(&self, rhs: Decimal) -> &Decimal;
 }
 impl core::ops::MulAssign for Decimal {
     #[verifier::external_body]
     fn mul_assign(&mut self, rhs: Decimal) ensures final(self).v() == old(self).v() * rhs.v() { unimplemented!() } }
 impl DivAssignSpecImpl for Decimal {
     open spec fn obeys_div_assign_spec() -> bool { false }
-    open spec fn div_assign_req(self, rhs: Decimal) -> bool { rhs.v() != 0real }
-    uninterp spec fn div_assign_spec(self, rhs: Decimal) -> Decimal;
+    open spec fn div_assign_req(&self, rhs: Decimal) -> bool { rhs.v() != 0real }
+    uninterp spec fn div_assign_spec(&self, rhs: Decimal) -> &Decimal;
 }
 impl core::ops::DivAssign for Decimal {
     #[verifier::external_body]
